@@ -1,6 +1,6 @@
 /* C05 - tagged varints sort bytewise in numeric order.
  *
- * case layout:  head:1  then arity x { kind:1, a:u64, param:1, [b:u64] }
+ * case layout:  head:1  then arity x { kind:1, a:u64, param:1, [b:u64 | nv:1] }
  *   head & 3        arity - 1 (tuples of 1..4 values)
  *   head & 4        encode with Put64FixedWidth(varintTaggedLen(v)) instead of
  *                   Put64 (both are the canonical encoding)
@@ -9,8 +9,8 @@
  *                   3   straddling     a = max(L) - x, b = max(L) + 1 + y
  *                                      (L, x, y from param; a:u64 is ignored)
  *                   4,5 one byte       b = a with one encoded byte replaced
- *                                      (byte index and new value from param
- *                                      and b:u64), same length when canonical
+ *                                      (byte index from param, new value nv),
+ *                                      same length when still canonical
  *                   6,7 independent    b:u64
  *   kind & 0x80     swap a and b
  *
@@ -117,13 +117,59 @@ static int check_pair(vf_report *rep, uint64_t a, uint64_t b, int fixed,
     return 1;
 }
 
+/* composite keys: concatenated encodings against the lexicographic order of
+ * the value tuples; returns 0 after a violation */
+static int check_tuple(vf_report *rep, const uint64_t *ta, const uint64_t *tb,
+                       unsigned arity, int fixed, int classes) {
+    uint8_t ca[48], cb[48];
+    unsigned LA = 0, LB = 0;
+    for (unsigned i = 0; i < arity; i++) {
+        LA += enc(ca + LA, ta[i], fixed);
+        LB += enc(cb + LB, tb[i], fixed);
+        if (LA > 36 || LB > 36) {
+            vf_fail(rep, "tagged.tuple", "range",
+                    "concatenation of %u keys is %u / %u bytes long", i + 1, LA,
+                    LB);
+            return 0;
+        }
+    }
+    int want = 0;
+    unsigned firstdiff = arity;
+    for (unsigned i = 0; i < arity && !want; i++) {
+        want = cmp64(ta[i], tb[i]);
+        if (want) {
+            firstdiff = i;
+        }
+    }
+    unsigned m = LA < LB ? LA : LB;
+    int c = sgn(memcmp(ca, cb, m));
+    if (c != want || (want == 0 && (LA != LB))) {
+        char ha[80], hb[80];
+        hex(ha, sizeof(ha), ca, LA);
+        hex(hb, sizeof(hb), cb, LB);
+        vf_fail(rep, "tagged.tuple", "order",
+                "tuples of %u values first differ at position %u "
+                "(lexicographic order %d) but memcmp of the concatenated "
+                "keys %s / %s over %u bytes gives %d",
+                arity, firstdiff, want, ha, hb, m, c);
+        return 0;
+    }
+    if (classes) {
+        char cls[48];
+        snprintf(cls, sizeof(cls), "tuple.arity%u.%s", arity,
+                 firstdiff == arity ? "equal"
+                 : firstdiff == 0   ? "first"
+                                    : "later");
+        vf_class(cls);
+    }
+    return 1;
+}
+
 void vf_run(vf_rd *r, vf_report *rep) {
     unsigned head = vf_u8(r);
     unsigned arity = 1 + (head & 3);
     int fixed = (head >> 2) & 1;
     uint64_t ta[4], tb[4];
-    uint8_t ca[40], cb[40];
-    unsigned LA = 0, LB = 0;
     int nontriv = 0;
     uint64_t h = vf_mix(arity, (uint64_t)fixed);
     vf_desc(rep, "arity=%u entry=%s", arity,
@@ -163,7 +209,7 @@ void vf_run(vf_rd *r, vf_report *rep) {
             uint8_t e[16];
             memset(e, 0, sizeof(e));
             unsigned l = vf_ref_encode(VF_TAGGED, a, e);
-            uint8_t nv = (uint8_t)vf_u64(r);
+            uint8_t nv = vf_u8(r);
             unsigned idx = l == 1 ? 0 : 1 + param % (l - 1);
             if (idx == 0) {
                 /* single-byte form: any other value 0..240 */
@@ -198,65 +244,45 @@ void vf_run(vf_rd *r, vf_report *rep) {
         if (i > 0) {
             vf_evals(1);
         }
-        /* classes */
+        /* classes (names are built once) */
         {
-            char cls[48];
-            snprintf(cls, sizeof(cls), "pair.%s", kname);
-            vf_class(cls);
+            static char pcls[5][24], lcls[10][10][24], scls[10][2][28];
+            unsigned ki = kind <= 1 ? 0 : kind == 2 ? 1 : kind == 3 ? 2
+                          : kind <= 5 ? 3 : 4;
+            if (!pcls[ki][0]) {
+                snprintf(pcls[ki], sizeof(pcls[ki]), "pair.%s", kname);
+            }
+            vf_class(pcls[ki]);
             if (a != b) {
                 if (la != lb) {
-                    snprintf(cls, sizeof(cls), "lengths.%u-%u",
-                             la < lb ? la : lb, la < lb ? lb : la);
-                    vf_class(cls);
+                    unsigned lo = la < lb ? la : lb, hi = la < lb ? lb : la;
+                    if (!lcls[lo][hi][0]) {
+                        snprintf(lcls[lo][hi], sizeof(lcls[lo][hi]),
+                                 "lengths.%u-%u", lo, hi);
+                    }
+                    vf_class(lcls[lo][hi]);
                     if ((a < b ? b - a : a - b) == 1) {
                         vf_class("boundary.adjacent");
                     }
                 } else {
-                    snprintf(cls, sizeof(cls), "samelen.%u%s", la,
-                             onebyte ? ".onebyte" : "");
-                    vf_class(cls);
+                    if (!scls[la][onebyte][0]) {
+                        snprintf(scls[la][onebyte], sizeof(scls[la][onebyte]),
+                                 "samelen.%u%s", la, onebyte ? ".onebyte" : "");
+                    }
+                    vf_class(scls[la][onebyte]);
                 }
                 if (la != lb || onebyte) {
                     nontriv = 1;
                 }
             }
         }
-        /* concatenations, built from fresh encodings */
-        LA += enc(ca + LA, a, fixed);
-        LB += enc(cb + LB, b, fixed);
         h = vf_mix(vf_mix(h, a), b);
     }
     if (arity > 1) {
-        int want = 0;
-        unsigned firstdiff = arity;
-        for (unsigned i = 0; i < arity && !want; i++) {
-            want = cmp64(ta[i], tb[i]);
-            if (want) {
-                firstdiff = i;
-            }
-        }
-        unsigned m = LA < LB ? LA : LB;
-        int c = sgn(memcmp(ca, cb, m));
-        if (c != want || (want == 0 && (LA != LB))) {
-            char ha[80], hb[80];
-            hex(ha, sizeof(ha), ca, LA);
-            hex(hb, sizeof(hb), cb, LB);
-            vf_fail(rep, "tagged.tuple", "order",
-                    "tuples of %u values first differ at position %u "
-                    "(lexicographic order %d) but memcmp of the concatenated "
-                    "keys %s / %s over %u bytes gives %d",
-                    arity, firstdiff, want, ha, hb, m, c);
+        if (!check_tuple(rep, ta, tb, arity, fixed, 1)) {
             return;
         }
         vf_evals(1);
-        {
-            char cls[48];
-            snprintf(cls, sizeof(cls), "tuple.arity%u.%s", arity,
-                     firstdiff == arity ? "equal"
-                     : firstdiff == 0   ? "first"
-                                        : "later");
-            vf_class(cls);
-        }
     }
     if (nontriv) {
         vf_nontrivial(h);
@@ -266,7 +292,7 @@ void vf_run(vf_rd *r, vf_report *rep) {
 /* deterministic sweep: every value within +-300 of every table boundary
  * against its successor, against the boundary itself and against the value one
  * length class up, both argument orders, both entry points; composite keys with
- * an equal first component */
+ * an equal first component at every pair of length-class edges */
 void vf_sweep(vf_report *rep) {
     size_t nb;
     const uint64_t *b = vf_boundaries(&nb);
@@ -302,6 +328,35 @@ void vf_sweep(vf_report *rep) {
                     uint64_t y = tagged_max[M] + (uint64_t)(int64_t)db;
                     check_pair(rep, x, y, 0, &la, &lb, &ob);
                     evals++;
+                }
+            }
+        }
+    }
+    /* composite keys: (k, v) against (k, v+1), (k+1, 0), (k, v, 0) vs
+     * (k, v+1, 0) for keys and values at every length-class edge */
+    for (unsigned L = 1; L <= 9 && !rep->violated; L++) {
+        for (unsigned M = 1; M <= 9 && !rep->violated; M++) {
+            for (int dk = -1; dk <= 1 && !rep->violated; dk++) {
+                for (int dv = -1; dv <= 1 && !rep->violated; dv++) {
+                    uint64_t k = tagged_max[L] + (uint64_t)(int64_t)dk;
+                    uint64_t v = tagged_max[M] + (uint64_t)(int64_t)dv;
+                    uint64_t t0[4] = {k, v, 0, 0};
+                    uint64_t t1[4] = {k, v + 1, 0, 0};
+                    uint64_t t2[4] = {k + 1, 0, 0, 0};
+                    uint64_t t3[4] = {k, v, UINT64_MAX, 1};
+                    for (int fixed = 0; fixed < 2; fixed++) {
+                        if (!check_tuple(rep, t0, t1, 2, fixed, 0) ||
+                            !check_tuple(rep, t1, t0, 2, fixed, 0) ||
+                            !check_tuple(rep, t0, t2, 2, fixed, 0) ||
+                            !check_tuple(rep, t2, t0, 2, fixed, 0) ||
+                            !check_tuple(rep, t0, t0, 2, fixed, 0) ||
+                            !check_tuple(rep, t0, t1, 3, fixed, 0) ||
+                            !check_tuple(rep, t3, t0, 4, fixed, 0) ||
+                            !check_tuple(rep, t0, t3, 4, fixed, 0)) {
+                            break;
+                        }
+                        evals += 8;
+                    }
                 }
             }
         }
